@@ -34,7 +34,9 @@ def gident(variant):
 
 
 def cfg_term(c):
-    return "(mk_cfg g13_flags %s %d %s)" % (gident(c["variant"]), c["interval_ms"], cbool(not c["no_backoff"]))
+    t = "(mk_cfg g13_flags %s %d %s)" % (gident(c["variant"]), c["interval_ms"], cbool(not c["no_backoff"]))
+    # dual-stack client: the negotiation phase precedes the state machine
+    return "(dual_client %s)" % t if "dualc" in c["variant"] else t
 
 
 def is_app(e):
